@@ -233,3 +233,31 @@ impl<S: BuildHasher + Clone + 'static> ExpirationMap<S> {
 unsafe impl<S: BuildHasher + Clone + 'static> Send for ExpirationMap<S> {}
 
 unsafe impl<S: BuildHasher + Clone + 'static> Sync for ExpirationMap<S> {}
+
+#[cfg(transparencies_stretto_verif)]
+impl Time {
+    /// `(created_at, d)` in nanoseconds.
+    pub(crate) fn verif_parts(&self) -> (u64, u64) {
+        (
+            self.created_at.duration_since(UNIX_EPOCH).unwrap().as_nanos() as u64,
+            self.d.as_nanos() as u64,
+        )
+    }
+}
+
+#[cfg(transparencies_stretto_verif)]
+impl<S: BuildHasher + Clone + 'static> ExpirationMap<S> {
+    pub(crate) fn verif_buckets(&self) -> crate::verif::Buckets {
+        let m = self.buckets.read();
+        let mut out: crate::verif::Buckets = m
+            .iter()
+            .map(|(b, bucket)| {
+                let mut ks: Vec<(u64, u64)> = bucket.map.iter().map(|(k, c)| (*k, *c)).collect();
+                ks.sort();
+                (*b, ks)
+            })
+            .collect();
+        out.sort();
+        out
+    }
+}
